@@ -226,16 +226,30 @@ def replay(case_name, direction, seed=0):
             x = torch.rand_like(x) * 0.8 + 0.1
             if ctx is not None:
                 ctx = torch.randn_like(ctx)
-            f = m if direction == "forward" else m.inverse
-            call = (lambda a, c: f(a, c)) if ctx is not None else (lambda a, c: f(a))
+            import copy
+
+            def call(a, c):
+                # the same model state for every call (a call must not change it; if it does - data-dependent
+                # initialisation in evaluation mode - the comparison has to start from the same state each time)
+                mm = copy.deepcopy(m)
+                ff = mm if direction == "forward" else mm.inverse
+                return ff(a, c) if ctx is not None else ff(a)
+
             y, l = call(x, ctx)
             worst = 0.0
+
+            def dev(a, b):
+                d = float((a - b).abs().max())
+                return float("inf") if d != d else d  # NaN on one side is a deviation
+
             for i in range(3):
                 yi, li = call(x[i:i + 1], None if ctx is None else ctx[i:i + 1])
-                worst = max(worst, float((yi - y[i:i + 1]).abs().max()), float((li - l[i:i + 1]).abs().max()))
+                worst = max(worst, dev(yi, y[i:i + 1]), dev(li, l[i:i + 1]))
+            y2, l2 = call(x[:2], None if ctx is None else ctx[:2])
+            worst = max(worst, dev(y2, y[:2]), dev(l2, l[:2]))
             perm = torch.tensor([2, 0, 1])
             yp, lp = call(x[perm], None if ctx is None else ctx[perm])
-            worst = max(worst, float((yp - y[perm]).abs().max()), float((lp - l[perm]).abs().max()))
+            worst = max(worst, dev(yp, y[perm]), dev(lp, l[perm]))
         res["max_deviation"] = worst
         res["reproduced"] = worst > 1e-9
     except Exception as e:  # noqa
@@ -350,10 +364,45 @@ def job_dist(cfg):
                     bad = "row %d depends on rows %s" % (row, sorted(other))
             jr["outcomes"].append({"name": nm + "/rows-independent", "kind": "goal", "status": "unsat" if bad is None else "sat", "s": 0.0, "expect": "unsat", "detail": bad or ""})
             if bad:
-                jr["inconclusive"].append({"query": nm, "why": bad})
+                with stubs.real_torch():
+                    rep = replay_dist(nm)
+                sig = {"case": nm, "relation": "row-independence"}
+                payload = {"property": PROP, "kernel": nm, "relation": "row-independence", "signature": sig, "error": bad, "replay_result": rep, "replay_call": {"fn": "harness.C12:replay_dist", "args": {"name": nm}}}
+                if rep.get("reproduced"):
+                    jr["violations"].append({"kernel": nm, "relation": "row-independence", "signature": sig, "replay": C.write_replay(PROP, "".join(ch if ch.isalnum() else "_" for ch in nm), payload), "detail": rep})
+                else:
+                    jr["inconclusive"].append({"query": nm, "why": bad, "replay": rep})
     jr["paths"] = len(items)
     jr["samples"].append({"distributions": [i[0] for i in items]})
     return jr
+
+
+def replay_dist(name):
+    """real tensors: every row of a batch of three equals the row evaluated alone."""
+    res = {"reproduced": False}
+    try:
+        torch.manual_seed(0)
+        x = torch.randn(3, 2, dtype=torch.float64)
+        ctx = torch.randn(3, 4, dtype=torch.float64)
+        t = ST.PointwiseAffineTransform(shift=0.5, scale=2.0)
+        fs = {
+            "StandardNormal.log_prob": lambda a, c: DN.StandardNormal([2]).log_prob(a),
+            "ConditionalDiagonalNormal.log_prob": lambda a, c: DN.ConditionalDiagonalNormal([2]).log_prob(a, context=c),
+            "Flow.log_prob": lambda a, c: FB.Flow(t, DN.ConditionalDiagonalNormal([2])).log_prob(a, context=c),
+            "Flow.transform_to_noise": lambda a, c: FB.Flow(t, DN.StandardNormal([2])).transform_to_noise(a),
+        }
+        f = fs[name]
+        with torch.no_grad():
+            full = f(x, ctx)
+            worst = 0.0
+            for i in range(3):
+                one = f(x[i:i + 1], ctx[i:i + 1])
+                worst = max(worst, float((one - full[i:i + 1]).abs().max()))
+        res["max_deviation"] = worst
+        res["reproduced"] = worst > 1e-9
+    except Exception as e:  # noqa
+        res["exception"] = "%s: %s" % (type(e).__name__, e)
+    return res
 
 
 def job(cfg):
